@@ -151,3 +151,31 @@ theorem mustCancel_gen (sc : Scn) (x : SubP) (j : JobId) :
 theorem collect_at_least_once : collectAtLeastOnce = true := rfl
 
 end Jade.Sys
+
+namespace Jade.Sys
+open Jade.Gen.Round
+
+/-- the source accumulates `newly_completed` over all passes of a round (C08: every collected result is
+    reported by the round that collected it) — as the model's `passEnd` does -/
+theorem newly_accumulates : newlyAccumulatesAcrossPasses = true := rfl
+
+theorem passEnd_newly_grows {s s' : Sys} {p : Pid} {ks : List JobId} (h : step s (.passEnd p ks) = some s') :
+    ∀ x x', getSub s p = some x → getSub s' p = some x' →
+      (∀ j ∈ x.newly, j ∈ x'.newly) ∧ (∀ r ∈ x.pass, r.job ∈ x'.newly) := by
+  intro x x' hx hx'
+  simp only [step, hx] at h
+  split at h
+  · cases h
+    simp only [getSub, setSub, setProc, if_true, Option.some.injEq] at hx'
+    subst hx'
+    constructor
+    · intro j hj; simp [hj]
+    · intro r hr
+      by_cases hin : r.job ∈ x.newly
+      · simp [hin]
+      · simp only [List.mem_append, List.mem_filter, List.mem_map]
+        right
+        exact ⟨⟨r, hr, rfl⟩, by simpa using hin⟩
+  · cases h
+
+end Jade.Sys
